@@ -6,10 +6,20 @@ open Model
 open Driver
 
 (* ---- rationals ---- *)
-let qadd (a : q) (b : q) = qred (qplus a b)
-let qsub a b = qred (qminus a b)
-let qmul a b = qred (qmult a b)
-let qdiv a b = qred (Model.qdiv a b)
+(* exact regime: every intermediate value of a run must be a binary64 number (dyadic, mantissa <= 53 bits);
+   then every IEEE operation of the C++ side is exact and equals the model's.  A run in which some
+   intermediate is not is discarded (NOTE_OUT_OF_REGIME), whatever its printed results look like. *)
+let repr_ok (x : q) =
+  let x = qred x in
+  let rec pw p = (match p with XH -> true | XO q -> pw q | XI _ -> false) in
+  let rec strip p = (match p with XO q -> strip q | _ -> p) in
+  let rec len p = (match p with XH -> 1 | XO q | XI q -> 1 + len q) in
+  pw x.qden && (match x.qnum with Z0 -> true | Zpos p | Zneg p -> len (strip p) <= 53)
+let chk (x : q) = (if not (repr_ok x) then inexact_seen := true); x
+let qadd (a : q) (b : q) = chk (qred (qplus a b))
+let qsub a b = chk (qred (qminus a b))
+let qmul a b = chk (qred (qmult a b))
+let qdiv a b = chk (qred (Model.qdiv a b))
 let q0 = q_of_int 0
 let q1 = q_of_int 1
 let rec pow2 k = if k = 0 then 1 else 2 * pow2 (k - 1)
@@ -48,6 +58,10 @@ let is_pow2 (x : q) = (* x = 2^k for some integer k *)
   n > 0 && d > 0 && (n land (n - 1)) = 0 && (d land (d - 1)) = 0
 
 let is_dyadic (x : q) = let x = qred x in let rec pw p = (match p with XH -> true | XO q -> pw q | XI _ -> false) in pw x.qden
+let numQc =
+  let c1 f = (fun a -> mg (chk (qred (qof (f a))))) and c2 f = (fun a b -> mg (chk (qred (qof (f a b))))) in
+  { numQ with nadd = c2 numQ.nadd; nsub = c2 numQ.nsub; nmul = c2 numQ.nmul; ndiv = c2 numQ.ndiv;
+              nopp = c1 numQ.nopp; ninv = c1 numQ.ninv }
 let numq_ops = (fun a b -> qlt (qof a) (qof b)), (fun a b -> qle (qof a) (qof b))
 let m1 f = fun a -> mg (f (qof a))
 let m2 f = fun a b -> mg (f (qof a) (qof b))
@@ -129,7 +143,7 @@ let fam_rosmock () =
              sYnew = zeros; sInitF = zeros; sK = List.init stages (fun _ -> zeros); sYerr = zeros } in
   let nerr k _ _ _ = mg errs.(min (int_of_nat k) (ne - 1)) in
   let (ltb, leb) = numq_ops in
-  let r = ros_solve numQ ltb leb (m1 qabs) (is_sent sentinel_nan) (is_sent sentinel_inf) (fun x -> qzero (qof x))
+  let r = ros_solve numQc ltb leb (m1 qabs) (is_sent sentinel_nan) (is_sent sentinel_inf) (fun x -> qzero (qof x))
             absorbed_f pow_inv_f (mg (q_of_int 10)) (mg (q_of_float 1.0e-6))
             vaxpy_q vzero_q vzero_q (add_diag_q mk) (forcing_q mk) (negjac_q mk) inplace
             factor_sep_q (solve_sep_q mk) factor_ip_q (solve_ip_q mk) nerr p (nat_of_int 400) (mg time_step) s0 in
@@ -165,14 +179,14 @@ let fam_bemock () =
   let ly = layout_of 0 in
   ignore l;
   let is_conv (resid : q list) (yn1 : q list) =
-    is_converged numQ ltb (m1 qabs) ly (nat_of_int ncells) (nat_of_int nspec) (List.map mg atol) (mg rtol) (mg small)
+    is_converged numQc ltb (m1 qabs) ly (nat_of_int ncells) (nat_of_int nspec) (List.map mg atol) (mg rtol) (mg small)
       (List.map mg resid) (List.map mg yn1) in
   let p = { bp_h_start = mg hstart; bp_max_iter = nat_of_int max_iter; bp_reductions = List.map mg reds } in
   let zeros = List.init (ncells * nspec) (fun _ -> q0) in
   let s0 = { bYn1 = y0; bJac = List.init (ncells * nspec * nspec) (fun _ -> q0); bLU = ([] : q list); bYn = zeros; bForcing = zeros } in
   let vresid (h : Obj.t) f yn1 yn = List.map2 (fun fi (a, b) -> qsub fi (qdiv (qsub a b) (qof h))) f (List.combine yn1 yn) in
   let vclamp yn1 d = List.map2 (fun a b -> let x = qadd a b in if qlt q0 x then x else q0) yn1 d in
-  let r = be_solve numQ ltb (fun x -> qzero (qof x)) vzero_q vzero_q (add_diag_q mk) (forcing_q mk) (negjac_q mk) inplace
+  let r = be_solve numQc ltb (fun x -> qzero (qof x)) vzero_q vzero_q (add_diag_q mk) (forcing_q mk) (negjac_q mk) inplace
             factor_sep_q (fun _ k -> scaled k) factor_ip_q (fun _ k -> scaled k) vresid vclamp is_conv (mg (q_of_int 2)) p
             (nat_of_int 2000) (mg time_step) s0 in
   let in_regime = List.for_all (function BeIter (h, _, _, _, _) -> is_pow2 (qof h) | _ -> true) r.br_trace in
@@ -208,7 +222,7 @@ let fam_nerr () =
   let ly = layout_of l in
   let (ltb, _) = numq_ops in
   let st v = to_storage_q ly ncells nspec pad v in
-  let r = normalized_error numQ ltb (m1 qabs) qsqrt (fun n -> mg (q_of_int (int_of_nat n))) ly (nat_of_int ncells) (nat_of_int nspec)
+  let r = normalized_error numQc ltb (m1 qabs) qsqrt (fun n -> mg (q_of_int (int_of_nat n))) ly (nat_of_int ncells) (nat_of_int nspec)
             (List.map mg atol) (mg rtol) (mg (q_of_float 1.0e-10)) (st y) (st yn) (st er) in
   out (str_of_q (qof r))
 
@@ -220,7 +234,7 @@ let fam_isconv () =
   let ly = layout_of l in
   let (ltb, _) = numq_ops in
   let st v = to_storage_q ly ncells nspec pad v in
-  let r = is_converged numQ ltb (m1 qabs) ly (nat_of_int ncells) (nat_of_int nspec) (List.map mg atol) (mg rtol) (mg small) (st rs) (st yn1) in
+  let r = is_converged numQc ltb (m1 qabs) ly (nat_of_int ncells) (nat_of_int nspec) (List.map mg atol) (mg rtol) (mg small) (st rs) (st yn1) in
   out (if r then "1" else "0")
 
 let guard f () = (try f () with Out_of_regime -> inexact_seen := true);
